@@ -82,7 +82,8 @@ class PITLinear(nn.Linear, PITModule):
         if self.fold_bn:
             # apply mask to the weights
             pruned_weight = torch.mul(self.weight, cout_mask.unsqueeze(1))
-            return F.linear(input, pruned_weight, self.bias)
+            pruned_bias = None if self.bias is None else torch.mul(self.bias, cout_mask)
+            return F.linear(input, pruned_weight, pruned_bias)
         else:
             y = F.linear(input, self.weight, self.bias)
             if self.bn is not None:
